@@ -29,13 +29,16 @@ META = {
     "technique": "explicit-state BFS over authentication request histories with prefix replay on two live "
                  "Transports (event mode), compared with a reference model of RFC 4252 server auth",
     "text": "All histories (quick: length <=2 in the main configuration, <=4 in the GSS-bound one; thorough: "
-            "until the canonical state space closes, fail counter 0..10) over an alphabet of 183 (quick) / 235 "
+            "until the canonical state space closes, fail counter 0..10) over an alphabet of 188 (quick) / 249 "
             "(thorough) client packets: none, password (incl. change request), keyboard-interactive request / "
             "response, publickey for ed25519 / ecdsa-256(/384/521) / rsa x {ssh-rsa, rsa-sha2-256, rsa-sha2-512} "
             "x {probe, valid signature, signature for another session id, signed username / service / method / "
             "algorithm / key blob altered, signature bit flipped, signed by another key, genuine request "
             "recorded in another live session and replayed verbatim, malformed signature encodings [blob one byte "
-            "short / empty / missing / all bits set - verifiers may raise instead of answering no]}, gssapi-with-mic request / token / MIC and "
+            "short / empty / missing / all bits set - verifiers may raise instead of answering no], [dimension 'signature blob "
+            "names another algorithm than the request' (+ a flipped bit): the server's algorithm-mismatch refusal, taken "
+            "before any verifier runs - as first request and after every state incl. 'valid signature, partial success' "
+            "for the same / another key]}, gssapi-with-mic request / token / MIC and "
             "gssapi-keyex (stub GSS context; MIC valid / invalid / no context), unknown method, service request, "
             "pipelined bursts (incl. the OpenSSH two-step flow probe + signed request with the key worth only a "
             "partial success both times); the server application's answer for each packet ranges over SUCCESSFUL / "
@@ -48,7 +51,7 @@ META = {
             "every grant must be reported for the user name the application approved. Sixth configuration, dimension "
             "'key re-exchange as an event of the history': a complete re-exchange begun by the client / by the "
             "server are two events, placed at every position (before the first request, between requests, between "
-            "probe and signed request, after a partial success, after authentication; 14/24 events, length <=3/5), next "
+            "probe and signed request, after a partial success, after authentication; 15/25 events, length <=3/5), next "
             "to publickey requests (ed25519, rsa-sha2-256, ecdsa-256) and gssapi-keyex MICs whose proof is made over "
             "{the session identifier = FIRST exchange hash, the LATEST exchange hash, another session's id}: after a "
             "re-exchange the latest exchange hash is no longer this session's identifier and a proof over it must "
@@ -115,6 +118,9 @@ def alphabet(tier, cfg):
             # malformed signature encodings (verifiers may raise instead of answering "no")
             for sv in R.SIG_MALFORMED:
                 evs.append(("req", AL, SC, "publickey", "%s/%s/%s" % (kk, alg, sv), "S"))
+            # signature blob that names another algorithm than the request (refused before any verifier runs)
+            for app in ("S" if tier == "quick" else "SP"):
+                evs.append(("req", AL, SC, "publickey", "%s/%s/%s" % (kk, alg, A.SIG_MISLABELLED), app))
         evs += gss_events()
         evs += [("req", AL, SC, "hostbased", "-", app) for app in "SF"]
         evs += [("svc", "ssh-userauth")]
@@ -152,6 +158,7 @@ def alphabet(tier, cfg):
         evs += [("req", AL, SC, "publickey", "ecdsa-256/ecdsa-sha2-nistp256/" + lh, "S")]
         evs += [("req", AL, SC, "gssapi-keyex", "ctx/" + q, "S") for q in ("valid", lh)]
         evs += [("req", AL, SC, "password", "plain", app) for app in "SF"]
+        evs += [("req", AL, SC, "publickey", "rsa/rsa-sha2-256/" + A.SIG_MISLABELLED, "S")]
         if tier != "quick":
             evs += [("req", AL, SC, "publickey", "rsa/rsa-sha2-256/valid", "S")]
             evs += [("req", AL, SC, "publickey", "ecdsa-256/ecdsa-sha2-nistp256/valid", "S")]
